@@ -2,3 +2,10 @@ import RaftWal.Props.C10
 #print axioms RaftWal.C10.failed_append_invisible
 #print axioms RaftWal.C10.failed_forceSeal_rolled_back
 #print axioms RaftWal.C10.failed_call_then_restart_partial
+#print axioms RaftWal.C10.readers_see_exactly_the_acknowledged_calls
+#print axioms RaftWal.C10.restart_applies_failed_calls_in_full_or_not_at_all
+#print axioms RaftWal.C10.failed_call_invisible_successful_call_applied
+#print axioms RaftWal.C10.fault_invariant_always
+#print axioms RaftWal.C10.fault_model_starts
+#print axioms RaftWal.C10.fault_model_extends_crash_model
+#print axioms RaftWal.C10.restart_needs_the_stronger_invariant
